@@ -168,12 +168,14 @@ theorem openWriter_temp (c : Cfg) (d : Disk) (nlNew bs : Nat) (w : WSt) (o : Lis
     · split at h
       · split at h
         · cases h; exact ⟨rfl, createOps_onlyTemp _⟩
-        · cases h
-          refine ⟨rfl, ?_⟩
-          intro x hx
-          split at hx
-          · simp only [List.mem_cons, List.not_mem_nil, or_false] at hx; subst hx; rfl
-          · simp at hx
+        · split at h
+          · cases h
+          · cases h
+            refine ⟨rfl, ?_⟩
+            intro x hx
+            split at hx
+            · simp only [List.mem_cons, List.not_mem_nil, or_false] at hx; subst hx; rfl
+            · simp at hx
       · cases h; exact ⟨rfl, by simp⟩
 
 /-- shape of a compaction's operation log: either it never gets as far as the rename (the
